@@ -37,3 +37,25 @@ impl ToConstraintField<Fq> for Element {
         Some([self.vartime_compress_to_field()].to_vec())
     }
 }
+
+/// Verification hook (off unless built with `--cfg decaf377_verif`): lets a test harness
+/// substitute the prover-supplied hint `(was_square, y)` of `FqVarExtension::isqrt`.
+#[cfg(decaf377_verif)]
+pub mod verif_hooks {
+    extern crate std;
+    use crate::Fq;
+    use core::cell::RefCell;
+
+    std::thread_local! {
+        static ISQRT_HINT: RefCell<Option<(bool, Fq)>> = RefCell::new(None);
+    }
+
+    /// Set (or clear) the hint substituted in every later `isqrt` call on this thread.
+    pub fn set_isqrt_hint(hint: Option<(bool, Fq)>) {
+        ISQRT_HINT.with(|h| *h.borrow_mut() = hint);
+    }
+
+    pub fn isqrt_hint() -> Option<(bool, Fq)> {
+        ISQRT_HINT.with(|h| *h.borrow())
+    }
+}
